@@ -74,6 +74,51 @@ func Programs(ctx *core.Ctx, f Family, limit int) ([][]Op, int, int, error) {
 	return progs, g.NumEdges(), covered, nil
 }
 
+// giantLists runs programs whose single WriteCompressed call holds more
+// objects than one object stream may have.
+func giantLists(ctx *core.Ctx) error {
+	sizes := []int{10001}
+	if ctx.Thorough() {
+		sizes = []int{9999, 10000, 10001, 20003}
+	}
+	var jobs []Job
+	for i, n := range sizes {
+		ns := make([]int, n)
+		vs := make([]string, n)
+		for k := range ns {
+			ns[k], vs[k] = k+1, []string{"a", "b"}[(k/7)%2]
+		}
+		prog := []Op{{Op: "AllocN", K: n}, {Op: "WriteCompressed", Ns: ns, Vs: vs}, {Op: "Put", N: n + 5, G: 0, V: "b"}, {Op: "Close"}}
+		for k := range prog {
+			if prog[k].Ns == nil {
+				prog[k].Ns, prog[k].Vs = []int{}, []string{}
+			}
+		}
+		cfg := Config{Version: []string{"1.7", "2.0", "1.5", "1.6"}[i%4], Seekable: i%2 == 0, Enc: "none", Tiny: true}
+		jobs = append(jobs, Job{Cfg: cfg, Prog: prog, Seed: ctx.Seed + int64(i)})
+	}
+	runs, err := ExecuteAll(jobs)
+	if err != nil {
+		return err
+	}
+	for i, r := range runs {
+		f := Family{ObjStm: r.ObjStm, Seekable: r.Seekable}
+		bad, err := core.JudgeCases(ctx, core.TLCOpts{Dir: "file", Module: "Trace_PdfWriter", Cfg: "Trace_PdfWriter_giant_" + f.String() + ".cfg",
+			Timeout: ctx.Dur(10, 30), XssMB: 1024, XmxMB: 6000}, []Run{r}, 1, 1)
+		if err != nil {
+			return err
+		}
+		for range bad {
+			key, what := classifyFailure(r)
+			ctx.Violation(key+"/giant-list", what+fmt.Sprintf(" (one WriteCompressed call with %d objects)", len(jobs[i].Prog[1].Ns)),
+				map[string]any{"cfg": r.Cfg, "giant": len(jobs[i].Prog[1].Ns), "seed": jobs[i].Seed})
+		}
+		ctx.Ev.Eval(1)
+		ctx.Ev.Distinct(fmt.Sprintf("giant-list-%d", len(jobs[i].Prog[1].Ns)))
+	}
+	return nil
+}
+
 // randomProgram draws a program beyond the bounds of the TLC model: longer,
 // two value ids, object numbers up to 6, several streams.
 func randomProgram(r *rand.Rand) []Op {
@@ -102,7 +147,12 @@ func randomProgram(r *rand.Rand) []Op {
 			inStream = false
 		case x == 9 && !inStream:
 			a, b := num(), num()
-			if a == b || r.Intn(3) == 0 {
+			if c := num(); r.Intn(8) == 0 {
+				prog = append(prog, Op{Op: "WriteCompressed"}) // the empty list
+			} else if c != a && c != b && a != b && r.Intn(4) == 0 {
+				v := val()
+				prog = append(prog, Op{Op: "WriteCompressed", Ns: []int{a, b, c}, Vs: []string{v, val(), val()}})
+			} else if a == b || r.Intn(3) == 0 {
 				prog = append(prog, Op{Op: "WriteCompressed", Ns: []int{a}, Vs: []string{val()}})
 			} else {
 				v := val()
@@ -158,6 +208,7 @@ func boundaryPrograms(r *rand.Rand, n, maxAlloc int) [][]Op {
 				k = 250 + r.Intn(50)
 			}
 			e(Op{Op: "AllocN", K: k}, Op{Op: "WriteCompressed", Ns: []int{2, 1}, Vs: []string{"a", "b"}}, Op{Op: "Put", N: 3, V: "a"}, Op{Op: "Close"})
+			e(Op{Op: "AllocN", K: k}, Op{Op: "WriteCompressed"}, Op{Op: "Put", N: 1, V: "a"}, Op{Op: "WriteCompressed"}, Op{Op: "Close"})
 		case 1:
 			k := []int{253, 255, 256, 7000}[r.Intn(4)]
 			if k > maxAlloc {
@@ -281,6 +332,11 @@ func progKey(p []Op) string {
 func classifyFailure(r Run) (key, what string) {
 	cfg := fmt.Sprintf("objstm=%v/seekable=%v/enc=%s", r.ObjStm, r.Seekable, encClass(r.Cfg))
 	for _, o := range r.Ops {
+		if o.Panic != "" {
+			return "panic/" + o.Op + "/" + cfg, fmt.Sprintf("%s panicked: %s (%s)", o.Op, o.Panic, cfg)
+		}
+	}
+	for _, o := range r.Ops {
 		if !o.ArgsOK {
 			return "args-modified/" + o.Op + "/" + encClass(r.Cfg), fmt.Sprintf("%s modified the caller's argument (%s)", o.Op, cfg)
 		}
@@ -300,7 +356,9 @@ func classifyFailure(r Run) (key, what string) {
 		for k := range r.Written {
 			keys = append(keys, k)
 		}
-		sort.Slice(keys, func(i, j int) bool { return keys[i][0] < keys[j][0] || keys[i][0] == keys[j][0] && keys[i][1] < keys[j][1] })
+		sort.Slice(keys, func(i, j int) bool {
+			return keys[i][0] < keys[j][0] || keys[i][0] == keys[j][0] && keys[i][1] < keys[j][1]
+		})
 		for _, k := range keys {
 			w := r.Written[k]
 			if got[k] != w.ID {
@@ -411,6 +469,11 @@ func run(ctx *core.Ctx) error {
 			r := runs[len(runs)/3]
 			ctx.Ev.Sample(map[string]any{"kind": "program run on pdf.Writer, judged by Trace_PdfWriter", "cfg": r.Cfg, "ops": r.Ops, "reads(first 8)": firstReads(r.Reads, 8)})
 		}
+	}
+	// object lists longer than the Reader's per-object-stream limit (10 000),
+	// which WriteCompressed must split; judged with the real MaxMembers
+	if err := giantLists(ctx); err != nil {
+		return err
 	}
 	ctx.Ev.Set("model_transitions_of_program_graphs", totalEdges)
 	ctx.Ev.Set("model_transitions_replayed_on_real_code", covEdges)
